@@ -157,7 +157,13 @@ func (p *p2cPicker) buildDoneFunc(c *subConn) func(balancer.DoneInfo) {
 			success = 0
 		}
 		oSuccess := atomic.LoadUint64(&c.success)
-		atomic.StoreUint64(&c.success, uint64(float64(oSuccess)*w+float64(success)*(1-w)))
+		nSuccess := float64(oSuccess)*w + float64(success)*(1-w)
+		// 朝样本方向取整：一律截断会丢掉高频成功样本不足 1 的增量，
+		// 而失败样本每次至少减 1，分值只降不升，恢复的后端永远回不到健康。
+		if nSuccess < float64(success) {
+			nSuccess = math.Ceil(nSuccess)
+		}
+		atomic.StoreUint64(&c.success, uint64(nSuccess))
 
 		stamp := p.stamp.Load()
 		if now-stamp >= logInterval {
